@@ -14,7 +14,7 @@ from ..symx import Expander, TupleV, ListV
 from ..ncf import M
 from .. import ncf, anf
 from ..anf import R, Unsupported
-from .common import struct_ob, guard, last_return
+from .common import struct_ob, guard, last_return, U
 from .gpm import gp_expander, refs, mob, REL
 from ..report import AnalysisError
 
@@ -59,9 +59,9 @@ def run(prog, tier):
     obs.append(mob("posterior-closed-form", qual(c, call) + "[variance]", errs.items[0], var_ref, call.lineno,
                    "point-wise variance = K_qq - K_qx K^-1 K_xq"))
     ret = last_return(call)
-    ok = ast.unparse(ret.value) == "(array(mu_q), sqrt(abs(array(errs))))"
+    ok = U(ret.value) == "(array(mu_q), sqrt(abs(array(errs))))"
     obs.append(struct_ob("posterior-closed-form", qual(c, call) + "[return]", ok,
-                         f"must return (means, sqrt(|variances|)); returns `{ast.unparse(ret.value)}`", REL, ret.lineno))
+                         f"must return (means, sqrt(|variances|)); returns `{U(ret.value)}`", REL, ret.lineno))
 
     # ---------------------------------------------------------------- build_posterior
     c, bp = prog.method("GpRegressor", "build_posterior")
@@ -94,13 +94,13 @@ def run(prog, tier):
             continue
         u, v = fn.args.args[1].arg, fn.args.args[2].arg
         for n in ast.walk(fn):
-            if isinstance(n, ast.Call) and ast.unparse(n.func) in ("zeros", "ones", "full", "empty") and n.args:
+            if isinstance(n, ast.Call) and U(n.func) in ("zeros", "ones", "full", "empty") and n.args:
                 shape = n.args[0]
                 ok = False
-                txt = ast.unparse(shape)
+                txt = U(shape)
                 if isinstance(shape, (ast.List, ast.Tuple)) and len(shape.elts) == 2:
                     def count_of(e, name):
-                        t = ast.unparse(e)
+                        t = U(e)
                         return t in (f"{name}.shape[0]", f"len({name})")
                     ok = count_of(shape.elts[0], u) and count_of(shape.elts[1], v)
                 obs.append(struct_ob("kernel-result-shape", qual(kc, fn), ok,
@@ -117,8 +117,8 @@ def run(prog, tier):
         c, fn = prog.method("GpRegressor", mname)
         p = fn.args.args[1].arg
         uses = [n for n in ast.walk(fn) if isinstance(n, ast.Name) and n.id == p and isinstance(n.ctx, ast.Load)]
-        calls = [n for n in ast.walk(fn) if isinstance(n, ast.Call) and ast.unparse(n.func) == "self.process_points"
-                 and len(n.args) == 1 and ast.unparse(n.args[0]) == p]
+        calls = [n for n in ast.walk(fn) if isinstance(n, ast.Call) and U(n.func) == "self.process_points"
+                 and len(n.args) == 1 and U(n.args[0]) == p]
         ok = len(uses) == 1 and len(calls) == 1
         obs.append(struct_ob("query-normalisation", qual(c, fn), ok,
                              f"`{p}` must be used only as the argument of self.process_points (uses: {len(uses)}, normalising calls: {len(calls)})",
@@ -144,7 +144,7 @@ def _error_inputs(prog, c, fn):
     top = [s for s in fn.body if isinstance(s, ast.If)]
     node = top[0] if top else None
     while node is not None:
-        t = ast.unparse(node.test)
+        t = U(node.test)
         if t.endswith(" is not None"):
             arms[t.split()[0]] = node.body
         node = node.orelse[0] if len(node.orelse) == 1 and isinstance(node.orelse[0], ast.If) else None
@@ -154,15 +154,15 @@ def _error_inputs(prog, c, fn):
             raise AnalysisError(f"anchor vanished: `{var} is not None` arm of check_error_data")
         conv = None
         for st in body:
-            if isinstance(st, ast.If) and "list" in ast.unparse(st.test) and "tuple" in ast.unparse(st.test):
+            if isinstance(st, ast.If) and "list" in U(st.test) and "tuple" in U(st.test):
                 conv = st
         ok, why = False, "no list/tuple conversion branch"
         if conv is not None:
             assigns = [s for s in conv.body if isinstance(s, ast.Assign)]
-            tested = var in ast.unparse(conv.test)
-            ok = tested and len(assigns) == 1 and ast.unparse(assigns[0].targets[0]) == var \
-                and f"array({var})" in ast.unparse(assigns[0].value)
-            why = f"conversion branch tests `{ast.unparse(conv.test)}` and does `{[ast.unparse(a) for a in assigns]}`"
+            tested = var in U(conv.test)
+            ok = tested and len(assigns) == 1 and U(assigns[0].targets[0]) == var \
+                and f"array({var})" in U(assigns[0].value)
+            why = f"conversion branch tests `{U(conv.test)}` and does `{[U(a) for a in assigns]}`"
         # after the conversion only `var` is used with array-only attributes and returned
         later = [n for st in body for n in ast.walk(st) if isinstance(n, ast.Attribute) and n.attr in ("shape", "T")
                  and isinstance(n.value, ast.Name)]
@@ -174,14 +174,14 @@ def _error_inputs(prog, c, fn):
     rets = [s for s in arms["y_err"] if isinstance(s, ast.Return)]
     ok = False
     why = ""
-    if len(rets) == 1 and isinstance(rets[0].value, ast.Call) and ast.unparse(rets[0].value.func) == "diag":
+    if len(rets) == 1 and isinstance(rets[0].value, ast.Call) and U(rets[0].value.func) == "diag":
         anf.reset()
         ex = Expander(prog, c.module, None)
         v = ex.eval(rets[0].value.args[0], {"y_err": R.sym("y_err")})
         ok = v.eq(R.sym("y_err") ** 2)
         why = f"returns diag({v})"
     rets_cov = [s for s in arms["y_cov"] if isinstance(s, ast.Return)]
-    ok = ok and len(rets_cov) == 1 and ast.unparse(rets_cov[0].value) == "y_cov"
+    ok = ok and len(rets_cov) == 1 and U(rets_cov[0].value) == "y_cov"
     out.append(struct_ob("error-input-typestate", qual(c, fn) + "[equivalence]", ok,
                          "standard deviations must become diag(y_err^2), the covariance the equivalent y_cov would give: " + why,
                          REL, fn.lineno, tier="F"))
